@@ -1065,10 +1065,10 @@ class SVD(Base):
         self.ck('u_orthonormal_columns', float(np.max(np.abs(U.conj().T @ U - np.eye(r)))) <= 1e-9, [s], None, tags)
         self.ck('v_orthonormal_rows', float(np.max(np.abs(W @ W.conj().T - np.eye(r)))) <= 1e-9, [s], None, tags)
         strue = np.linalg.svd(A, compute_uv=False)
-        s0 = strue[0] if strue.size and strue[0] > 0 else 1.0
-        if s0 <= 1e-6 * s.floor():
+        if not strue.size or strue[0] <= 1e-6 * s.floor():  # (an exactly cancelling integer-valued train gives an exact 0 here)
             core.ctx().skip('svd_numerically_zero_tensor')
             return
+        s0 = strue[0]
         thr, mr = v['threshold'], v['max_rank']
         # which clauses are decidable: no cut at all, or a relative cut that falls into a clear gap of every
         # unfolding spectrum (rank-deficient data with a threshold well below the non-zero part)
@@ -1130,10 +1130,10 @@ class Pinv(Base):
         d = s.order
         A = s.dense().reshape(int(np.prod(s.row_dims[:idx])), int(np.prod(s.row_dims[idx:])))
         strue = np.linalg.svd(A, compute_uv=False)
-        s0 = strue[0] if strue.size and strue[0] > 0 else 1.0
-        if s0 <= 1e-6 * s.floor():
+        if not strue.size or strue[0] <= 1e-6 * s.floor():
             core.ctx().skip('pinv_numerically_zero_tensor')
             return
+        s0 = strue[0]
         thr = v['threshold']
         rel = strue / s0
         allsv = unfolding_svals(s.dense_b(), d) if d > 1 else []
